@@ -9,6 +9,9 @@ import PqlModel.Props.C03Full
 import PqlModel.Props.C02EndToEnd
 import PqlModel.Props.C05Parsed
 import PqlModel.Props.C02EndToEndSource
+import PqlModel.Props.C05WriteIRAll
+import PqlModel.Props.C05WriteIRStmt
+import PqlModel.Props.C07Defaults
 #print axioms Pql.C02.C02_canAttachSort_table
 #print axioms Pql.C02.C02_top_eq_sort_take
 #print axioms Pql.C02.C02_spec_top
